@@ -52,6 +52,34 @@ def replay(case):
         if len(p0) != len(p1):
             return {"ok": False, "problems": [f"row count {len(p0)} vs {len(p1)}"]}
         bad = _cmp(p0, p1, ["predicted"])
+    elif fam in ("hourly_dup", "hourly_whatif", "hourly_long_gap"):
+        from bounded.hourly_common import fitted_hourly, hourly_frame
+        import opendsm.eemeter as em
+        m, _ = fitted_hourly(case["zone"])
+        if fam == "hourly_whatif":
+            # a what-if run: the baseline's own timestamps and usage under other weather (the model was fitted in this process on exactly this usage)
+            df = hourly_frame(case["zone"]).loc["2016-01-01":"2016-12-31"].copy()
+            df["temperature"] = df["temperature"] + 6.0
+        else:
+            df = hourly_frame(case["zone"]).loc["2017-04-10":"2017-05-20"].copy()
+        if fam == "hourly_long_gap":
+            # a weather-feed outage of twelve days (the data class fills it)
+            df.iloc[24 * 8: 24 * 20, df.columns.get_loc("temperature")] = np.nan
+        if fam == "hourly_dup":
+            # a feed that delivers some hours twice: first an early copy without the reading and with a provisional temperature, then the final one
+            pos = np.random.default_rng(3).choice(np.arange(30, len(df) - 30), size=25, replace=False)
+            early = df.iloc[pos].copy()
+            early["observed"] = np.nan
+            early["temperature"] = early["temperature"] + 4.0
+            df = pd.concat([df.iloc[:pos.min()], early, df.iloc[pos.min():]]).sort_index(kind="stable")
+            # the early copy must come first among equal stamps
+            order = np.lexsort((df["observed"].notna().values, df.index.asi8))
+            df = df.iloc[order]
+        p0 = m.predict(em.HourlyReportingData(df.copy(), is_electricity_data=True), ignore_disqualification=True)
+        p1 = m.predict(em.HourlyReportingData(ALTER[case["alter"]](df.copy(), rng), is_electricity_data=True), ignore_disqualification=True)
+        if len(p0) != len(p1):
+            return {"ok": False, "problems": [f"row count {len(p0)} vs {len(p1)}"]}
+        bad = _cmp(p0, p1, ["predicted"])
     elif fam == "daily":
         from bounded.C01_roundtrip import fitted
         import opendsm.eemeter as em
@@ -130,7 +158,7 @@ def run(tier="quick", seed=0):
                 "real fitted models (hourly: full-year America/Chicago baseline; daily: sample fit; thorough: + CalTRACK hourly) predicting "
                 "paired reporting sets that differ only in observed usage {scaled, shuffled, 35% NaN, all NaN, column absent} over spans "
                 "with and without a DST change; the daily data class fed with one hourly frame whose usage has exact zeros / is scaled by zero (electricity: zeros are blanked); "
-                "an hourly model whose full-year baseline has a meter outage over the Saturdays of June; every prediction produced in both must be bit-identical; "
+                "an hourly model whose full-year baseline has a meter outage over the Saturdays of June; hourly reporting frames with hours delivered twice (an early copy without the reading and another temperature), the baseline's own usage under other weather (what-if), a twelve-day temperature outage; every prediction produced in both must be bit-identical; "
                 "distinct = (family, span, alteration)",
                 known_findings=load_known("C05"))
     spans = [("America/Chicago", "2017-03-05", "2017-03-19"), ("America/Chicago", "2017-06-03", "2017-06-09")]
@@ -151,6 +179,9 @@ def run(tier="quick", seed=0):
         cases.append({"family": "daily_from_hourly", "alter": alt, "seed": seed})
     for alt in ("all_nan", "shuffled", "absent") + (("replaced", "partial_nan") if tier == "thorough" else ()):
         cases.append({"family": "hourly_outage", "zone": "America/Chicago", "alter": alt, "seed": seed})
+    for fam, alts in (("hourly_dup", ("all_nan", "absent")), ("hourly_whatif", ("scaled", "absent")), ("hourly_long_gap", ("scaled", "absent", "partial_nan"))):
+        for alt in alts + (("replaced",) if tier == "thorough" else ()):
+            cases.append({"family": fam, "zone": "America/Chicago", "alter": alt, "seed": seed})
     for case in cases:
         try:
             r = replay(case)
